@@ -40,6 +40,7 @@ fn main() {
         "worker" => runner::worker(&args[2..]),
         "replay" => runner::replay_cmd(&args[2..]),
         "sweepworker" => runner::sweep_worker(&args[2..]),
+        "typesworker" => runner::worker_k::<cxcheck::ext::TypesKind>(&args[2..]),
         "bigworker" => runner::worker_k::<cxcheck::big::BigKind>(&args[2..]),
         "fuzzjudge" => cxcheck::fuzz::judge_cmd(&args[2..]),
         "scaleprobe" => cxcheck::c15::scaleprobe_cmd(&args[2..]),
